@@ -167,3 +167,42 @@ impl DatabaseCallback {
     pub fn callback(&self, database: &mut crate::Database) ensures self.ran() { unimplemented!() }
 }
 //@trusted ffi::DatabaseCallback::callback: C callback, opaque (takes the database by `&mut` in the unit: the raw pointer the real signature takes is made from exactly such a reference at the call site)
+
+// ---- serial port settings as generated for C (c_int fields; the getters convert through the generated From<c_int> tables) ----
+//@item @ffi/ffi.rs | DataBits | derive=Copy,Clone
+//@item @ffi/ffi.rs | FlowControl | derive=Copy,Clone
+//@item @ffi/ffi.rs | Parity | derive=Copy,Clone
+//@item @ffi/ffi.rs | StopBits | derive=Copy,Clone
+pub open spec fn data_bits_of(v: i32) -> DataBits { if v == 0 { DataBits::Five } else if v == 1 { DataBits::Six } else if v == 2 { DataBits::Seven } else { DataBits::Eight } }
+pub open spec fn flow_control_of(v: i32) -> FlowControl { if v == 0 { FlowControl::None } else if v == 1 { FlowControl::Software } else { FlowControl::Hardware } }
+pub open spec fn parity_of(v: i32) -> Parity { if v == 0 { Parity::None } else if v == 1 { Parity::Odd } else { Parity::Even } }
+pub open spec fn stop_bits_of(v: i32) -> StopBits { if v == 0 { StopBits::One } else { StopBits::Two } }
+impl FromSpecImpl<i32> for DataBits { open spec fn obeys_from_spec() -> bool { true } open spec fn from_spec(v: i32) -> Self { data_bits_of(v) } }
+impl FromSpecImpl<i32> for FlowControl { open spec fn obeys_from_spec() -> bool { true } open spec fn from_spec(v: i32) -> Self { flow_control_of(v) } }
+impl FromSpecImpl<i32> for Parity { open spec fn obeys_from_spec() -> bool { true } open spec fn from_spec(v: i32) -> Self { parity_of(v) } }
+impl FromSpecImpl<i32> for StopBits { open spec fn obeys_from_spec() -> bool { true } open spec fn from_spec(v: i32) -> Self { stop_bits_of(v) } }
+impl From<std::os::raw::c_int> for DataBits {
+//@fn @ffi/ffi.rs | From<std::os::raw::c_int> for DataBits::from | tags=C18 | ext_body
+}
+impl From<std::os::raw::c_int> for FlowControl {
+//@fn @ffi/ffi.rs | From<std::os::raw::c_int> for FlowControl::from | tags=C18 | ext_body
+}
+impl From<std::os::raw::c_int> for Parity {
+//@fn @ffi/ffi.rs | From<std::os::raw::c_int> for Parity::from | tags=C18 | ext_body
+}
+impl From<std::os::raw::c_int> for StopBits {
+//@fn @ffi/ffi.rs | From<std::os::raw::c_int> for StopBits::from | tags=C18 | ext_body
+}
+//@item @ffi/ffi.rs | SerialPortSettings | derive=Clone
+impl SerialPortSettings {
+//@fn @ffi/ffi.rs | SerialPortSettings::baud_rate | tags=C18
+//@|    ensures r == self.baud_rate,
+//@fn @ffi/ffi.rs | SerialPortSettings::data_bits | tags=C18
+//@|    ensures r == data_bits_of(self.data_bits),
+//@fn @ffi/ffi.rs | SerialPortSettings::flow_control | tags=C18
+//@|    ensures r == flow_control_of(self.flow_control),
+//@fn @ffi/ffi.rs | SerialPortSettings::parity | tags=C18
+//@|    ensures r == parity_of(self.parity),
+//@fn @ffi/ffi.rs | SerialPortSettings::stop_bits | tags=C18
+//@|    ensures r == stop_bits_of(self.stop_bits),
+}
